@@ -534,6 +534,9 @@ Plan generate_plan(const std::string& profile_in, uint64_t seed, uint64_t index)
     Rng r(seed);
     common_config(p, r);
     p.cfg.profile = profile_in;
+    // one library in six is addressed by a directory string with a trailing separator (derived from the seed, not drawn:
+    // the plans of earlier sessions keep their digests otherwise)
+    p.cfg.dir_slash = ((seed * 0x9E3779B97F4A7C15ull) >> 40) % 6 == 0;
     // profile = base[2][_disk|_pure]
     std::string profile = profile_in;
     bool disk = false, pure = false, only_v2 = false, aud = false;
